@@ -808,8 +808,6 @@ pub fn judge(rec: &StepRec, exp: &Exp) -> Vec<Problem> {
                         PKind::ChangedOnPanic,
                         format!("contents after documented panic: {}", model::show_tags(&rec.post_tags)),
                     ));
-                } else if key_fine(&rec.post) != key_fine(&rec.pre) {
-                    out.push(pb(PKind::ChangedOnPanic, "memory image changed by a call that panicked".into()));
                 }
                 // (argument elements owned by the harness die during unwinding: not the crate's doing)
                 if rec.events.iter().any(|e| matches!(e, Ev::Drop(t) | Ev::Clone(t) if *t < ledger::TAG_ARG)) {
